@@ -20,6 +20,7 @@ ASSUMPTIONS = ["gzip / base64 / json layers are library code", "round trip over 
 TRUSTED = []
 
 MUTANTS = [
+    {"name": "setcluster-header-epoch-after-flags", "file": "src/common/proto.rs", "after": "    pub fn to_args(&self) -> Vec<String> {\n        let mut args = vec![\n            self.version.clone(),", "old": "            self.epoch.to_string(),\n            self.flags.to_arg(),\n            self.cluster_name.to_string(),", "new": "            self.flags.to_arg(),\n            self.epoch.to_string(),\n            self.cluster_name.to_string(),", "expect": "C17.D1:ProxyClusterMeta:to_args:header-order"},
     {"name": "repl-peers-read-with-take", "file": "src/replication/replicator.rs", "old": "        for _ in 0..peer_num {\n            let node_address = it.next().ok_or(CmdParseError::InvalidArgs)?;\n            let proxy_address = it.next().ok_or(CmdParseError::InvalidArgs)?;\n            peers.push(ReplPeer {\n                node_address,\n                proxy_address,\n            })\n        }", "new": "        let toks: Vec<String> = it.by_ref().take(peer_num * 2).collect();\n        for pair in toks.chunks(2) {\n            if let [node_address, proxy_address] = pair {\n                peers.push(ReplPeer {\n                    node_address: node_address.clone(),\n                    proxy_address: proxy_address.clone(),\n                })\n            }\n        }", "expect": "C17.D5:decoder-reads-every-token"},
     {"name": "masters-without-replicas-not-encoded", "file": "src/replication/replicator.rs", "old": "    for master in masters.iter() {\n        args.push(\"master\".to_string());", "new": "    for master in masters.iter() {\n        if master.replicas.is_empty() {\n            continue;\n        }\n        args.push(\"master\".to_string());", "expect": "C17.D5:encoder-emits-every-element"},
     {"name": "migration-meta-read-order", "file": "src/common/cluster.rs", "old": "            src_proxy_address: it.next()?,\n            src_node_address: it.next()?,\n            dst_proxy_address: it.next()?,", "new": "            src_proxy_address: it.next()?,\n            dst_proxy_address: it.next()?,\n            src_node_address: it.next()?,", "expect": "C17.D1:MigrationMeta"},
@@ -71,6 +72,7 @@ def run(ctx):
     ctx.rule("C17.D3", "the compressed decoder reads to the end without a size limit")
     ctx.rule("C17.D4", "the broker accepts a finished-migration descriptor with either tag")
     _migration_meta(ctx)
+    _cluster_meta_header(ctx)
     _slot_range(ctx)
     _task_meta(ctx)
     _tags(ctx)
@@ -440,3 +442,55 @@ def _encoder_loops(ctx):
                   bad="%s can go round a loop (head bb%s) without emitting anything for that element: the element is missing from the message and the decoded value differs" % (name, [h for h, _ in sk]))
     ctx.floor("C17.D5", "encoders examined", n, 6)
     ctx.floor("C17.D5", "encoder loops examined", nl, 3)
+
+
+def _cluster_meta_header(ctx):
+    """SETCLUSTER header: the writer's leading [version, epoch, flags, cluster name] (plain) and [version, epoch, flags, data]
+    (compressed) against the order in which parse() reads them"""
+    F = ctx.F
+    r = F.one("common::proto::ProxyClusterMeta::parse")
+    if r is None:
+        ctx.lost("C17.D1", "ProxyClusterMeta:header", "parse not found")
+        return
+    HEAD = ("version", "epoch", "flags", "cluster_name")
+    dr_ = DefUse(r)
+    rseqs = []
+    for bb, i, st in agg_sites(r, "common::proto::ProxyClusterMeta"):
+        rv = st["rv"]
+        reads = {}
+        for fn, o in zip(rv["fields"], rv["ops"]):
+            if fn not in HEAD:
+                continue
+            from ..lib import producer_calls
+            nxt = sorted({bb_ for c_, bb_ in producer_calls(r, dr_, o) if c_.rsplit("::", 1)[-1] == "next"})
+            if len(nxt) == 1:
+                reads[fn] = nxt[0]
+        if len(set(reads.values())) == len(reads) and len(reads) >= 3:
+            order = _order_by_dom(r, list(reads.values()))
+            if order:
+                inv = {v: k for k, v in reads.items()}
+                rseqs.append([inv[x] for x in order])
+    if not ctx.floor("C17.D1", "ProxyClusterMeta constructions with an ordered header in parse", len(rseqs), 1):
+        return
+    for wname in ("to_args", "to_compressed_args"):
+        w = F.one("common::proto::ProxyClusterMeta::" + wname)
+        if w is None:
+            ctx.lost("C17.D1", "ProxyClusterMeta:%s" % wname, "not found")
+            continue
+        ctx.analysed(w, r)
+        dw = DefUse(w)
+        wseq = None
+        for bb, i, st in w.assigns():
+            rv = st["rv"]
+            if rv["k"] == "agg" and rv["ak"] == "array" and len(rv["ops"]) == 4:
+                seq = []
+                for o in rv["ops"]:
+                    fl = sorted({n for a, n in dw.slice_operand(o, deep=False).fields if (a or "").endswith("ProxyClusterMeta")} or {n for a, n in dw.slice_operand(o).fields if (a or "").endswith("ProxyClusterMeta")})
+                    seq.append(fl[0] if len(fl) == 1 else "data" if not fl or len(fl) > 1 else "?")
+                wseq = seq
+        if wseq is None:
+            ctx.lost("C17.D1", "ProxyClusterMeta:%s:header" % wname, "no 4-element header array found")
+            continue
+        want = [x for x in wseq if x in HEAD]
+        ok = any([x for x in rs if x in want] == want and len(want) >= 3 for rs in rseqs)
+        ctx.check(ok, "C17.D1", "ProxyClusterMeta:%s:header-order" % wname, site(w), ok="header written as %s, read in the same order" % wseq, bad="%s writes the header as %s but parse() reads %s" % (wname, wseq, rseqs))
